@@ -58,7 +58,18 @@ fn print_type(t: &Type) -> String {
     s.strip_suffix(';').unwrap_or(s).trim().to_string()
 }
 
+struct TypeMapper;
+impl VisitMut for TypeMapper {
+    fn visit_type_mut(&mut self, t: &mut Type) {
+        visit_mut::visit_type_mut(self, t);
+        if let Some(nt) = norm::map_vec_type(t) {
+            *t = nt;
+        }
+    }
+}
+
 fn strip_vis_fields(fields: &mut Fields) {
+    TypeMapper.visit_fields_mut(fields);
     match fields {
         Fields::Named(n) => {
             for f in n.named.iter_mut() {
@@ -278,6 +289,8 @@ fn process(repo: &str, req: &Value, cache: &mut HashMap<String, syn::File>) -> V
         }
     }
     let ast = cache.get(&file).unwrap();
+    let sig_only = kind == "sig";
+    let kind = if sig_only { "fn" } else { kind };
     let Some(found) = find_item(&ast.items, kind, path, trait_name) else {
         return json!({"path": path, "kind": kind, "file": file, "error": format!("LOST-ANCHOR {} {} not found in {}", kind, path, file)});
     };
@@ -304,6 +317,7 @@ fn process(repo: &str, req: &Value, cache: &mut HashMap<String, syn::File>) -> V
             s2.vis = parse_quote!(pub);
             for v in s2.variants.iter_mut() {
                 v.attrs.clear();
+                TypeMapper.visit_fields_mut(&mut v.fields);
                 for f in v.fields.iter_mut() { f.attrs.clear(); }
             }
             out["line"] = json!(s.ident.span().start().line);
@@ -346,6 +360,18 @@ fn process(repo: &str, req: &Value, cache: &mut HashMap<String, syn::File>) -> V
             out["line"] = json!(t.ident.span().start().line);
             out["methods"] = json!(methods);
         }
+        FoundItem::Fn(f) if sig_only => {
+            let (_, _, shape) = sig_strings(&f.sig);
+            out["kind"] = json!("sig");
+            out["shape"] = shape;
+            out["line"] = json!(f.sig.ident.span().start().line);
+        }
+        FoundItem::Method(_, m) if sig_only => {
+            let (_, _, shape) = sig_strings(&m.sig);
+            out["kind"] = json!("sig");
+            out["shape"] = shape;
+            out["line"] = json!(m.sig.ident.span().start().line);
+        }
         FoundItem::Fn(f) => {
             emit_fn(&mut out, req, &f.sig, &f.block, None);
         }
@@ -361,6 +387,25 @@ fn process(repo: &str, req: &Value, cache: &mut HashMap<String, syn::File>) -> V
 }
 
 fn emit_fn(out: &mut Value, req: &Value, sig: &Signature, block: &Block, impl_hdr: Option<String>) {
+    let mut sig_owned = sig.clone();
+    TypeMapper.visit_signature_mut(&mut sig_owned);
+    let mut extra_applied: Vec<Value> = vec![];
+    if let Some(mp) = req["mut_params"].as_array() {
+        for a in sig_owned.inputs.iter_mut() {
+            if let FnArg::Typed(pt) = a {
+                let name = pt.pat.to_token_stream().to_string();
+                if mp.iter().any(|m| m.as_str() == Some(name.as_str())) {
+                    if let Type::Reference(r) = &mut *pt.ty {
+                        if r.mutability.is_none() {
+                            r.mutability = Some(Default::default());
+                            extra_applied.push(json!({"rule": "N13b-shared-sink-param-to-mut", "line": sig.ident.span().start().line}));
+                        }
+                    }
+                }
+            }
+        }
+    }
+    let sig = &sig_owned;
     let (sig_txt, ret, shape) = sig_strings(sig);
     out["line"] = json!(sig.ident.span().start().line);
     out["end_line"] = json!(block.brace_token.span.close().end().line);
@@ -398,7 +443,9 @@ fn emit_fn(out: &mut Value, req: &Value, sig: &Signature, block: &Block, impl_hd
     n.mark_loops(&mut b);
     out["body"] = json!(print_block(&b));
     out["loops"] = json!(n.loops);
-    out["applied"] = json!(n.applied);
+    let mut all_applied = extra_applied;
+    all_applied.extend(n.applied.iter().cloned());
+    out["applied"] = json!(all_applied);
     out["panic_sites"] = json!(n.panic_sites);
     if !n.errors.is_empty() {
         out["error"] = json!(format!("UNSUPPORTED {}", n.errors.join("; ")));
